@@ -53,7 +53,8 @@ Lin(g) == /\ pend[g] # None /\ ~pend[g].lin
                  W  == {h \in S1 : h.ep = f.ep}           \* what may be combined with f
                  excused == c.ov \/ mode = "safety"
              IN \E d \in BOOLEAN :
-                  /\ DoneOK(W, excused, d)                \* DeliverOnlyComplete / Incomplete / Timeout / DeliversWhenComplete
+                  /\ DoneOK(W, excused, d) = TRUE         \* DeliverOnlyComplete / Incomplete / Timeout / DeliversWhenComplete
+                                                          \* ("= TRUE": evaluate as a value; TLC would branch on every \E witness)
                   /\ \E add \in (IF c.ov /\ ~d THEN BOOLEAN ELSE {TRUE}) :
                        seen' = IF d THEN seen \ OfKey(f.k) ELSE IF add THEN seen \cup {f} ELSE seen
                   /\ pend' = [pend EXCEPT ![g].lin = TRUE, ![g].done = d,
